@@ -14,7 +14,8 @@ Inductive case :=
 | CBuf (size : option nat) (es : list nat)
 | CFHist (d0 : nat) (ops : list fop)
 | CPubLive (tab : list lobs) (os : list nat) (es : list nat)
-| CBuf2 (size : option nat) (ops : list bop).
+| CBuf2 (size : option nat) (ops : list bop)
+| CPHist (tab : list lobs) (os : list nat) (ops : list pop).
 
 Definition run_show (c : case) : string :=
   match c with
@@ -25,5 +26,6 @@ Definition run_show (c : case) : string :=
       let '(ds, oo) := publish_all_live tab os es in
       if oo then "OOF" else String.concat " " (map show_dlv ds)
   | CBuf2 size ops => String.concat " " (map (show_list show_nat) (brun size [] ops))
+  | CPHist tab os ops => String.concat " " (map show_dlv (prun tab os ops))
   | CFHist d0 ops => String.concat " " (map (fun a => match a with ALevel l => show_nat l | APass b => show_bool b end) (frun (finit d0) ops))
   end.
